@@ -1,20 +1,28 @@
 #!/bin/bash
-# tools/seedtest.sh <seeded-dir> [check-id...]  — apply a seeded change to /repo, run the given
-# checks (default: the property in meta.json) in the quick tier without touching evidence,
-# print one line per check, and restore /repo. Never leaves /repo modified.
+# tools/seedtest.sh <seeded-dir> [check-id...]  — apply a seeded change to a scratch worktree of
+# /repo's HEAD, run the given checks (default: the property in meta.json) against it without
+# touching evidence, print one line per check, and remove the worktree. /repo is never modified.
+# (SEED_INPLACE=1 applies the patch to /repo itself instead and restores it afterwards.)
 set -u
-D=${1:?seeded dir}; shift
+D=$(cd "${1:?seeded dir}" && pwd); shift
 VERIF=$(cd "$(dirname "$0")/.." && pwd)
 IDS=("$@")
 if [ ${#IDS[@]} -eq 0 ]; then IDS=($(python3 -c "import json,sys; print(json.load(open('$D/meta.json'))['property'])")); fi
-if [ -n "$(git -C /repo status --porcelain)" ]; then echo "refusing: /repo is not clean" >&2; exit 2; fi
-git -C /repo apply "$D/patch.diff" || { echo "patch does not apply" >&2; exit 2; }
-trap 'git -C /repo checkout -- . ; git -C /repo clean -fdq' EXIT
+if [ "${SEED_INPLACE:-0}" = 1 ]; then
+  R=/repo
+  if [ -n "$(git -C /repo status --porcelain)" ]; then echo "refusing: /repo is not clean" >&2; exit 2; fi
+  trap 'git -C /repo checkout -- . ; git -C /repo clean -fdq' EXIT
+else
+  R=$(mktemp -d /tmp/seedrepo.XXXXXX); rmdir "$R"
+  git -C /repo worktree add -q --detach "$R" HEAD || exit 2
+  trap 'git -C /repo worktree remove --force "$R"' EXIT
+fi
+git -C "$R" apply "$D/patch.diff" || { echo "patch does not apply" >&2; exit 2; }
 TIER=${SEED_TIER:-quick}
 for ID in "${IDS[@]}"; do
-  OUT=$(cd "$VERIF" && ./check "$ID" "$TIER" -evidence /dev/null -replays /dev/shm/seedtest-replays 2>&1); RC=$?
+  OUT=$(cd "$VERIF" && VERIF_REPO="$R" ./check "$ID" "$TIER" -evidence /dev/null -replays /dev/shm/seedtest-replays.$$ 2>&1); RC=$?
   SIGS=$(echo "$OUT" | grep -o 'signature=[^ ]*' | sort -u | tr '\n' ' ')
   echo "$(basename "$D") check=$ID tier=$TIER exit=$RC $SIGS"
   [ $RC -eq 2 ] && echo "$OUT" | tail -5
 done
-rm -rf /dev/shm/seedtest-replays
+rm -rf /dev/shm/seedtest-replays.$$
